@@ -296,8 +296,10 @@ pub mod arbitrary_precision {
     {
         let n = BigDecimal::deserialize(deserializer)?;
 
-        if n.scale.abs() > SERDE_SCALE_LIMIT && SERDE_SCALE_LIMIT > 0 {
-            let msg = format!("Calculated exponent '{}' out of bounds", -n.scale);
+        // note: abs() overflows for i64::MIN (reachable by parsing "1e9223372036854775808")
+        let scale_out_of_bounds = n.scale.checked_abs().map_or(true, |abs_scale| abs_scale > SERDE_SCALE_LIMIT);
+        if scale_out_of_bounds && SERDE_SCALE_LIMIT > 0 {
+            let msg = format!("Calculated exponent '{}' out of bounds", -(n.scale as i128));
             Err(serde::de::Error::custom(msg))
         } else {
             Ok(n)
